@@ -6,6 +6,7 @@ import (
 	"fmt"
 	gkm "github.com/go-kit/kit/metrics"
 	"log"
+	"math"
 	"net"
 	"net/http"
 	"net/url"
@@ -21,6 +22,12 @@ import (
 var errInvalidPrefix = errors.New("route: prefix must not be empty")
 var errInvalidTarget = errors.New("route: target must not be empty")
 var errNoMatch = errors.New("route: no target match")
+var errInvalidWeight = errors.New("route: invalid weight")
+
+// validWeight reports whether w is a usable weight, i.e. a finite number.
+func validWeight(w float64) bool {
+	return !math.IsNaN(w) && !math.IsInf(w, 0)
+}
 
 // table stores the active routing table. Must never be nil.
 var table atomic.Value
@@ -158,6 +165,10 @@ func (t Table) addRoute(d *RouteDef) error {
 		return errInvalidTarget
 	}
 
+	if !validWeight(d.Weight) {
+		return errInvalidWeight
+	}
+
 	targetURL, err := url.Parse(d.Dst)
 	if err != nil {
 		return fmt.Errorf("route: invalid target. %s", err)
@@ -198,6 +209,10 @@ func (t Table) weighRoute(d *RouteDef) error {
 
 	if d.Src == "" {
 		return errInvalidPrefix
+	}
+
+	if !validWeight(d.Weight) {
+		return errInvalidWeight
 	}
 
 	if t[host] == nil || t[host].find(path) == nil {
